@@ -56,7 +56,7 @@ theorem renaming_preserves_resolution (rs : List Result) (path : List Ns) (r : R
     -- the reservation scope covers the lookup path below the home scope
     (cover : ∀ a ∈ path.takeWhile (fun a => !bindsOrig rs a x), a ∈ r.b.scope)
     -- the assigner's guarantee (C03.no_new_clash), for bindings homed on that part of the path
-    (clash : ∀ r' ∈ rs, (r.renamed = true ∨ r'.renamed = true) → (∃ ns, ns ∈ r.b.scope ∧ ns ∈ r'.b.scope) → r'.final ≠ r.final)
+    (clash : ∀ r' ∈ rs, r'.b.home ≠ r.b.home → (r.renamed = true ∨ r'.renamed = true) → (∃ ns, ns ∈ r.b.scope ∧ ns ∈ r'.b.scope) → r'.final ≠ r.final)
     -- a binding that was not renamed keeps its spelling
     (kept : ∀ r' ∈ rs, r'.renamed = false → r'.final = r'.b.name)
     (homeIn : ∀ r' ∈ rs, r'.b.home ∈ r'.b.scope) :
@@ -82,8 +82,17 @@ theorem renaming_preserves_resolution (rs : List Result) (path : List Ns) (r : R
     simp only [Bool.and_eq_true, beq_iff_eq] at hcond
     obtain ⟨hhome, hfin'⟩ := hcond
     have hinter : ∃ ns, ns ∈ r.b.scope ∧ ns ∈ r'.b.scope := ⟨a, hacov, by rw [← hhome]; exact homeIn r' hr'⟩
+    -- `a` does not bind `x`, the home of `r` does: another scope, so another binding
+    have hother : r'.b.home ≠ r.b.home := by
+      intro he
+      have hb : bindsOrig rs a x = true := by
+        unfold bindsOrig
+        rw [List.any_eq_true]
+        exact ⟨r, hr, by simp [← he, hhome, hname]⟩
+      rw [hb] at hnob
+      exact Bool.noConfusion hnob
     by_cases hren : r.renamed = true ∨ r'.renamed = true
-    · exact clash r' hr' hren hinter (by rw [hfin', hfin])
+    · exact clash r' hr' hother hren hinter (by rw [hfin', hfin])
     · have h1 : r.renamed = false := by cases h : r.renamed <;> simp_all
       have h2 : r'.renamed = false := by cases h : r'.renamed <;> simp_all
       have e1 := kept r hr h1
